@@ -74,6 +74,8 @@ func writeEvidence(prop, profile, tier string, seed uint64, rs []*RunResult, nvi
 	txok := map[string]float64{}
 	txfail := map[string]float64{}
 	checks := map[string]float64{}
+	shadow := map[string]float64{}
+	c17 := map[string]float64{}
 	for k, v := range counters {
 		switch {
 		case strings.HasPrefix(k, "fault/"):
@@ -86,6 +88,10 @@ func writeEvidence(prop, profile, tier string, seed uint64, rs []*RunResult, nvi
 			txfail[strings.TrimPrefix(k, "tx_fail/")] = v
 		case strings.HasPrefix(k, "checks/"):
 			checks[strings.TrimPrefix(k, "checks/")] = v
+		case strings.HasPrefix(k, "shadow_") || strings.HasPrefix(k, "reexec_"):
+			shadow[k] = v
+		case strings.HasPrefix(k, "c17/"):
+			c17[strings.TrimPrefix(k, "c17/")] = v
 		}
 	}
 	level := "exploration"
@@ -115,6 +121,9 @@ func writeEvidence(prop, profile, tier string, seed uint64, rs []*RunResult, nvi
 		"distinct_interleaving_3grams":    len(grams),
 		"coverage_measure":                "state signature = bucketed tuple (#pools by kind, #positions by module and health bucket, vault utilisation, oracle status per asset, pending orders, vesting entries, reward denoms); interleaving = distinct 3-grams of (message type|blocker, ok|fail) on each signer's and each pool's timeline",
 		"replica_blocks_compared":         counters["replica_blocks_compared"],
+		"differential_replicas":           shadow,
+		"c17_attack_refusals_by_message_type": c17,
+		"c17_authority_message_types_enumerated_per_run": counters["c17_authority_message_types"] / float64(len(rs)),
 		"known_findings_seen":             nknown,
 		"real_components":                 []string{"all 17 elys modules (keepers, hooks, begin/end blockers, msg servers)", "elys ante handler chain with real signature verification", "cosmos-sdk baseapp, auth, bank, staking, gov(ccv democracy), authz, distribution, ccv consumer", "IAVL/rootmulti commit store"},
 		"stubbed_components":              []string{"CometBFT consensus, mempool, p2p (SimComet/SimNet)", "disk (SimDB: in-memory dbm.DB with op counting, read-fault injection, crash/restart)", "IBC counterparties, Band oracle, ICS provider (absent)", "wall clock never read by the harness; block time from SimClock"},
